@@ -77,12 +77,21 @@ def gen_service(k, methods, attr="none"):
         lines.append("        %sasync fn %s(self, ctx: tarpc::context::Context%s) -> %s {" % (gate(m), ident(m), args, ret_type(m)))
         lines.append("            let args = %s;" % dbg)
         lines.append("            let ret: %s = %s;" % (ret_type(m), val))
-        lines.append("            emit(\"ImplCall\", json!({\"svc\": %d, \"m\": \"%s\", \"args\": args, \"dl\": dl_of(&ctx), \"ret\": format!(\"{:?}\", ret)}));"
+        lines.append("            emit(\"ImplCall\", json!({\"svc\": %d, \"m\": \"%s\", \"args\": args, \"dl\": dl_of(&ctx), \"tr\": tr_of(&ctx), \"ret\": format!(\"{:?}\", ret)}));"
                      % (k, "".join(m["name"])))
         lines.append("            ret")
         lines.append("        }")
-    lines += ["    }", "    pub async fn run() {",
-              "        let (tx, rx) = tarpc::transport::channel::unbounded();",
+    # the transport between the generated client and the generated serve glue: in memory, or (when the request / response types
+    # are serde types, i.e. the default derives) the serde transport with JSON or bincode over an in-process duplex pipe
+    tmode = ["mem", "json", "bincode"][k % 3] if attr == "none" else "mem"
+    if tmode == "mem":
+        mk = ["        let (tx, rx) = tarpc::transport::channel::unbounded();"]
+    else:
+        codec = "Json" if tmode == "json" else "Bincode"
+        mk = ["        let (a, b) = tokio::io::duplex(1 << 16);",
+              "        let tx = tarpc::serde_transport::new(Framed::new(a, LengthDelimitedCodec::new()), %s::default());" % codec,
+              "        let rx = tarpc::serde_transport::new(Framed::new(b, LengthDelimitedCodec::new()), %s::default());" % codec]
+    lines += ["    }", "    pub async fn run() {"] + mk + [
               "        let server = BaseChannel::with_defaults(rx);",
               "        tokio::spawn(server.execute(Imp.serve()).for_each(|f| async move { tokio::spawn(f); }));",
               "        let client = Svc%dClient::new(tarpc::client::Config::default(), tx).spawn();" % k]
@@ -101,7 +110,9 @@ def gen_service(k, methods, attr="none"):
         lines.append("        {")
         lines.append("            let mut ctx = tarpc::context::current();")
         lines.append("            ctx.deadline = base() + std::time::Duration::from_secs(%d);" % (100 + 7 * j + k % 5))
-        lines.append("            emit(\"ClientCall\", json!({\"svc\": %d, \"m\": \"%s\", \"args\": %s, \"dl\": dl_of(&ctx)}));" % (k, name, dbg))
+        lines.append("            ctx.trace_context = tarpc::trace::Context { trace_id: tarpc::trace::TraceId::from((%du128 << 64) | %du128), "
+                     "span_id: tarpc::trace::SpanId::from(9u64), sampling_decision: tarpc::trace::SamplingDecision::Sampled };" % (k + 1000, j + 1))
+        lines.append("            emit(\"ClientCall\", json!({\"svc\": %d, \"m\": \"%s\", \"args\": %s, \"dl\": dl_of(&ctx), \"tr\": tr_of(&ctx)}));" % (k, name, dbg))
         lines.append("            let r = client.%s(ctx%s).await;" % (ident(m), "".join(", " + v for v in vals)))
         lines.append("            emit(\"ClientResult\", json!({\"svc\": %d, \"m\": \"%s\", \"res\": format!(\"{:?}\", r.map_err(|e| e.to_string()))}));" % (k, name))
         lines.append("            let req = Svc%dRequest::%s { %s };" % (k, variant, fields))
@@ -143,11 +154,14 @@ use futures::prelude::*;
 use serde_json::json;
 use std::sync::atomic::{AtomicU64, Ordering};
 use tarpc::server::{BaseChannel, Channel};
+use tarpc::tokio_serde::formats::{Bincode, Json};
+use tarpc::tokio_util::codec::{Framed, LengthDelimitedCodec};
 
 static SEQ: AtomicU64 = AtomicU64::new(0);
 static SCN: AtomicU64 = AtomicU64::new(0);
 static BASE: std::sync::OnceLock<std::time::Instant> = std::sync::OnceLock::new();
 fn base() -> std::time::Instant { *BASE.get_or_init(std::time::Instant::now) }
+fn tr_of(ctx: &tarpc::context::Context) -> String { format!("{:x}", u128::from(ctx.trace_context.trace_id)) }
 fn dl_of(ctx: &tarpc::context::Context) -> u64 { (ctx.deadline.duration_since(base()).as_millis() as u64 + 500) / 1000 }
 fn emit(ev: &str, mut v: serde_json::Value) {
     let m = v.as_object_mut().unwrap();
